@@ -45,6 +45,7 @@ package openapi3
 //@   assuming schema.Format == ""
 //@   modifies nothing
 //@   ensures [verdict] (result == nil) <==> validNumber(schema, value)
+//@   ensures [nonempty-multi] typeof(result) == type MultiError ==> len(result.(MultiError)) > 0
 //@   tag C01 C10 C12
 
 // ---- strings: type, minLength/maxLength (in code points), pattern ----
@@ -95,6 +96,7 @@ package openapi3
 //@   modifies nothing
 //@   loop 0 invariant length == runesPrefix(value, #pos) && 0 <= length && length <= #pos
 //@   ensures [verdict] (result == nil) <==> validString(schema, value)
+//@   ensures [nonempty-multi] typeof(result) == type MultiError ==> len(result.(MultiError)) > 0
 //@   tag C01 C10 C12
 
 // ---- the recursive validity predicate ----
@@ -124,12 +126,6 @@ package openapi3
 //@   modifies nothing
 //@   defines result == distinct(xs)
 
-//@ func (*Schema).visitJSON
-//@   requires schema != nil && settings != nil
-//@   modifies nothing
-//@   defines (result == nil) <==> valid(schema, value)
-//@   defines typeof(result) == type MultiError ==> len(result.(MultiError)) > 0
-
 // ---- arrays: type, minItems/maxItems, uniqueItems, items ----
 //@ spec sizeOK(s *Schema, n int) bool := s.MinItems <= n && (s.MaxItems != nil ==> n <= *s.MaxItems)
 //@ spec validArray(s *Schema, a []any) bool :=
@@ -139,7 +135,7 @@ package openapi3
 //@  && (s.Items != nil ==> (forall i int :: 0 <= i && i < len(a) ==> valid(s.Items.Value, a[i])))
 
 //@ func (*Schema).visitJSONArray
-//@   requires schema != nil && settings != nil
+//@   requires schema != nil && settings != nil && wfDeep(schema)
 //@   assuming !settings.asreq && !settings.asrep
 //@   assuming schema.Items != nil ==> schema.Items.Value != nil
 //@   modifies nothing
@@ -161,10 +157,11 @@ package openapi3
 //@  && (forall k string :: has(o, k) ==> propOK(s, k, o[k]))
 //@  && (forall j int :: 0 <= j && j < len(s.Required) ==> has(o, s.Required[j]))
 
+//@ spec resolvedProps(s *Schema) bool opaque := forall k string :: s.Properties[k] != nil ==> s.Properties[k].Value != nil
 //@ func (*Schema).visitJSONObject
-//@   requires schema != nil && settings != nil
+//@   requires schema != nil && settings != nil && wfDeep(schema)
 //@   assuming !settings.asreq && !settings.asrep
-//@   assuming forall k string :: schema.Properties[k] != nil ==> schema.Properties[k].Value != nil
+//@   assuming resolvedProps(schema)
 //@   assuming schema.AdditionalProperties.Schema != nil ==> schema.AdditionalProperties.Schema.Value != nil
 //@   modifies nothing
 //@   loop 2 invariant seenset() == keys(keys) && fresh(keys)
@@ -173,5 +170,154 @@ package openapi3
 //@   loop 4 invariant !settings.multiError ==> len(me) == 0
 //@   loop 4 invariant (len(me) == 0) <==> (propsSizeOK(schema, len(value)) && (forall k string :: has(value, k) ==> propOK(schema, k, value[k])) && (forall j int :: 0 <= j && j < #i ==> has(value, schema.Required[j])))
 //@   ensures [verdict] (result == nil) <==> validObject(schema, value)
+//@   ensures [nonempty-multi] typeof(result) == type MultiError ==> len(result.(MultiError)) > 0
+//@   tag C01 C10 C12
+
+// ---- null, boolean ----
+//@ spec permitsNull(s *Schema) bool := s.Nullable || includes(s.Type, "null")
+//@ func (*Schema).PermitsNull
+//@   requires schema != nil
+//@   modifies nothing
+//@   ensures result == permitsNull(schema)
+//@   tag C01 C10
+//@ func (*Schema).visitJSONNull
+//@   requires schema != nil && settings != nil
+//@   modifies nothing
+//@   ensures [verdict] (result == nil) <==> permitsNull(schema)
+//@   ensures [nonempty-multi] typeof(result) != type MultiError
+//@   tag C01 C10 C12
+//@ func (*Schema).visitJSONBoolean
+//@   requires schema != nil && settings != nil
+//@   modifies nothing
+//@   ensures [verdict] (result == nil) <==> permits(schema.Type, "boolean")
+//@   ensures [nonempty-multi] typeof(result) != type MultiError
+//@   tag C01 C10 C12
+
+// ---- the empty-schema shortcut ----
+// isEmptySchema(s) is DEFINED as the result of s.IsEmpty(); what is proved is its one-level
+// structure (emptyTop). A schema graph delivered by the loader has no nil references in its
+// sub-schema positions (wfRefs).
+//@ spec isEmptySchema(s *Schema) bool reads Schema.*, SchemaRef.*, *Types, []any, []*SchemaRef, map[string]*SchemaRef, []string, *float64, *uint64, *bool
+//@ spec ownEmpty(s *Schema) bool :=
+//@     s.Type == nil && s.Format == "" && len(s.Enum) == 0 && !s.UniqueItems && !s.ExclusiveMin && !s.ExclusiveMax
+//@  && !s.Nullable && !s.ReadOnly && !s.WriteOnly && !s.AllowEmptyValue && s.Min == nil && s.Max == nil && s.MultipleOf == nil
+//@  && s.MinLength == 0 && s.MaxLength == nil && s.Pattern == "" && s.MinItems == 0 && s.MaxItems == nil
+//@  && len(s.Required) == 0 && s.MinProps == 0 && s.MaxProps == nil
+// no own keyword and no sub-schema at all
+//@ spec emptyTop(s *Schema) bool :=
+//@     ownEmpty(s) && s.Not == nil && s.Items == nil && len(s.Properties) == 0 && s.AdditionalProperties.Schema == nil && addlAllowed(s)
+//@  && len(s.OneOf) == 0 && len(s.AnyOf) == 0 && len(s.AllOf) == 0
+
+// Well-formedness of the schema graph (what parsing delivers): no nil reference in a
+// sub-schema position, at any depth. wfDeep is the greatest fixpoint of its unfolding.
+//@ spec wfDeep(s *Schema) bool reads Schema.*, SchemaRef.*, []*SchemaRef, map[string]*SchemaRef
+//@ spec refWf(r *SchemaRef) bool := r.Value != nil ==> wfDeep(r.Value)
+//@ spec wfRefList(xs SchemaRefs) bool := forall i int :: 0 <= i && i < len(xs) ==> xs[i] != nil && refWf(xs[i])
+//@ spec wfRefs(s *Schema) bool :=
+//@     (forall k string :: has(s.Properties, k) ==> s.Properties[k] != nil && refWf(s.Properties[k]))
+//@  && wfRefList(s.OneOf) && wfRefList(s.AnyOf) && wfRefList(s.AllOf)
+//@  && (s.Not != nil ==> refWf(s.Not)) && (s.Items != nil ==> refWf(s.Items))
+//@  && (s.AdditionalProperties.Schema != nil ==> refWf(s.AdditionalProperties.Schema))
+//@ axiom wfDeepUnfold: forall s *Schema :: s != nil && wfDeep(s) ==> wfRefs(s)
+
+//@ func (*Schema).IsEmpty
+//@   requires schema != nil
+//@   modifies nothing
+//@   defines result == isEmptySchema(schema)
+//@   ensures [structure] result == emptyTop(schema)
+//@   tag C01 C10
+
+// ---- not, enum, oneOf/anyOf/allOf ----
+//@ spec notOK(s *Schema, v any) bool := s.Not == nil || !valid(s.Not.Value, v)
+//@ func (*Schema).visitNotOperation
+//@   requires schema != nil && settings != nil && wfDeep(schema)
+//@   assuming schema.Not != nil ==> schema.Not.Value != nil
+//@   modifies nothing
+//@   ensures [verdict] (result == nil) <==> notOK(schema, value)
+//@   ensures [nonempty-multi] typeof(result) != type MultiError
+//@   tag C01 C10 C12
+
+// enum: JSON equality with some member. Scope: values as encoding/json decodes them (the int64 and
+// json.Number kinds produced by the parameter decoders are compared numerically by the code and are
+// outside this contract - see DESIGN.md, finding enum-vs-int32).
+//@ spec enumOK(s *Schema, v any) bool := len(s.Enum) == 0 || (exists i int :: 0 <= i && i < len(s.Enum) && jsonEq(s.Enum[i], v))
+//@ func (*Schema).visitEnumOperation
+//@   requires schema != nil && settings != nil
+//@   assuming typeof(value) != type json.Number && typeof(value) != type int64
+//@   modifies nothing
+//@   loop 0 invariant err == nil
+//@   loop 0 invariant forall j int :: 0 <= j && j < #i ==> !jsonEq(schema.Enum[j], value)
+//@   ensures [verdict] (result == nil) <==> old(enumOK(schema, value))
+//@   ensures [nonempty-multi] typeof(result) != type MultiError
+//@   tag C01 C10 C12
+
+// oneOf: exactly one member valid; anyOf: some member valid; allOf: every member valid.
+// countValid(xs, v, n): how many of the first n members accept v.
+//@ spec countValid(xs SchemaRefs, v any, n int) int reads Schema.*, SchemaRef.*, *Types, []any, map[string]any, []*SchemaRef, map[string]*SchemaRef, []string, *float64, *uint64, *bool
+// its definition (by recursion on n), instantiated where needed:
+//@ spec countValidStep(xs SchemaRefs, v any, i int) bool := countValid(xs, v, i + 1) == countValid(xs, v, i) + (valid(xs[i].Value, v) ? 1 : 0)
+//@ axiom countValid0: forall xs SchemaRefs, v any :: countValid(xs, v, 0) == 0
+//@ spec oneOfOK(s *Schema, v any) bool := len(s.OneOf) == 0 || countValid(s.OneOf, v, len(s.OneOf)) == 1
+//@ spec anyOfOK(s *Schema, v any) bool := len(s.AnyOf) == 0 || (exists i int :: 0 <= i && i < len(s.AnyOf) && valid(s.AnyOf[i].Value, v))
+//@ spec allOfOK(s *Schema, v any) bool := forall i int :: 0 <= i && i < len(s.AllOf) ==> valid(s.AllOf[i].Value, v)
+//@ spec xofOK(s *Schema, v any) bool := oneOfOK(s, v) && anyOfOK(s, v) && allOfOK(s, v)
+//@ spec hasXOF(s *Schema) bool := len(s.OneOf) > 0 || len(s.AnyOf) > 0 || len(s.AllOf) > 0
+//@ spec resolvedList(xs SchemaRefs) bool := forall i int :: 0 <= i && i < len(xs) ==> xs[i] != nil && xs[i].Value != nil
+
+//@ func (*Schema).visitXOFOperations
+//@   requires schema != nil && settings != nil && wfDeep(schema)
+//@   assuming !settings.asreq && !settings.asrep && schema.Discriminator == nil
+//@   assuming resolvedList(schema.OneOf) && resolvedList(schema.AnyOf) && resolvedList(schema.AllOf)
+//@   modifies nothing
+//@   loop 0 invariant 0 <= ok && ok <= #i && ok == countValid(schema.OneOf, value, #i) && discriminatorRef == "" && same(tempValue, value)
+//@   loop 0 assume countValidStep(schema.OneOf, value, #i)
+//@   loop 1 invariant !ok && same(tempValue, value) && (forall j int :: 0 <= j && j < #i ==> !valid(schema.AnyOf[j].Value, value))
+//@   loop 2 invariant forall j int :: 0 <= j && j < #i ==> valid(schema.AllOf[j].Value, value)
+//@   loop 2 invariant visitedAllOf == (#i > 0)
+//@   ensures [verdict] (result.0 == nil) <==> old(xofOK(schema, value))
+//@   ensures [run] result.0 == nil ==> (result.1 == !(old(hasXOF(schema)) && value == nil))
+//@   ensures [nonempty-multi] typeof(result.0) != type MultiError
+//@   tag C01 C10 C12
+
+// ---- the dispatcher: one level of the draft-4 / OpenAPI 3.0 semantics ----
+//@ spec jsonShape(v any) bool :=
+//@     v == nil || typeof(v) == type bool || typeof(v) == type float64 || typeof(v) == type string || typeof(v) == type []any || typeof(v) == type map[string]any
+//@ spec byType(s *Schema, v any) bool :=
+//@     typeof(v) == type bool ? permits(s.Type, "boolean")
+//@   : (typeof(v) == type float64 ? (!isNaN(v.(float64)) && !isInf(v.(float64)) && validNumber(s, v.(float64)))
+//@   : (typeof(v) == type string ? validString(s, v.(string))
+//@   : (typeof(v) == type []any ? validArray(s, v.([]any))
+//@   : validObject(s, v.(map[string]any)))))
+//@ spec validTopNN(s *Schema, v any) bool := notOK(s, v) && xofOK(s, v) && enumOK(s, v) && byType(s, v)
+
+// An empty sub-schema accepts every non-null value: this is visitJSON's own post-condition
+// [empty-accepts] below, used for the children.
+//@ axiom emptyAccepts: forall c *Schema, v any :: c != nil && isEmptySchema(c) && v != nil ==> valid(c, v)
+
+//@ spec scopeC01(s *Schema, st *schemaValidationSettings) bool :=
+//@     s.Format == "" && !st.patternValidationDisabled && st.regexCompiler == nil && (s.Pattern != "" ==> compiles(s.Pattern))
+//@  && !st.asreq && !st.asrep && s.Discriminator == nil
+//@  && (s.Not != nil ==> s.Not.Value != nil) && (s.Items != nil ==> s.Items.Value != nil)
+//@  && resolvedProps(s)
+//@  && (s.AdditionalProperties.Schema != nil ==> s.AdditionalProperties.Schema.Value != nil)
+//@  && resolvedList(s.OneOf) && resolvedList(s.AnyOf) && resolvedList(s.AllOf)
+
+//@ func (*Schema).visitJSON
+//@   requires schema != nil && settings != nil && wfDeep(schema)
+//@   assuming scopeC01(schema, settings) && jsonShape(value)
+//@   modifies nothing
+//@   defines (result == nil) <==> valid(schema, value)
+//@   defines typeof(result) == type MultiError ==> len(result.(MultiError)) > 0
+//@   ensures [accepted-satisfies] value != nil && result == nil ==> old(notOK(schema, value)) && old(xofOK(schema, value)) && old(enumOK(schema, value))
+//@   ensures [accepted-boolean] typeof(value) == type bool && result == nil ==> old(permits(schema.Type, "boolean"))
+//@   ensures [accepted-number] typeof(value) == type float64 && result == nil ==> !isNaN(value.(float64)) && !isInf(value.(float64)) && old(validNumber(schema, value.(float64)))
+//@   ensures [accepted-string] typeof(value) == type string && result == nil ==> old(validString(schema, value.(string)))
+//@   ensures [accepted-array] typeof(value) == type []any && result == nil ==> old(validArray(schema, value.([]any)))
+//@   ensures [accepted-object] typeof(value) == type map[string]any && result == nil ==> old(validObject(schema, value.(map[string]any)))
+//@   ensures [satisfying-accepted] value != nil && old(validTopNN(schema, value)) ==> result == nil
+//@   ensures [null-needs-nullable] value == nil && result == nil ==> old(permitsNull(schema) || hasXOF(schema))
+//@   ensures [nullable-admits-null] value == nil && old(permitsNull(schema)) ==> result == nil
+//@   ensures [null-through-composition] value == nil && result == nil && !old(permitsNull(schema)) ==> old(xofOK(schema, value) && notOK(schema, value))
+//@   ensures [empty-accepts] old(isEmptySchema(schema)) && value != nil && !(typeof(value) == type float64 && (isNaN(value.(float64)) || isInf(value.(float64)))) ==> result == nil
 //@   ensures [nonempty-multi] typeof(result) == type MultiError ==> len(result.(MultiError)) > 0
 //@   tag C01 C10 C12
